@@ -18,19 +18,19 @@ func init() { Registry["C13"] = checkC13 }
 const pop3Rel = "pkg/server/pop3"
 
 type pop3Model struct {
-	c                                    *Ctx
-	fState, fMessages, fRetain, fCount   *types.Var
-	fStore                               *types.Var
-	states                               map[string]int64
-	stateName                            map[int64]string
-	stateWriter, loader, retainReset     *ssa.Function
-	deleteProc, send, readLine, root     *ssa.Function
-	fns                                  []*ssa.Function
-	rmObj                                *types.Func
-	ts                                   *eng.TS
-	events                               map[string][]tsEvent
-	undec                                []string
-	ok                                   bool
+	c                                  *Ctx
+	fState, fMessages, fRetain, fCount *types.Var
+	fStore                             *types.Var
+	states                             map[string]int64
+	stateName                          map[int64]string
+	stateWriter, loader, retainReset   *ssa.Function
+	deleteProc, send, readLine, root   *ssa.Function
+	fns                                []*ssa.Function
+	rmObj                              *types.Func
+	ts                                 *eng.TS
+	events                             map[string][]tsEvent
+	undec                              []string
+	ok                                 bool
 }
 
 func (c *Ctx) pop3() *pop3Model {
